@@ -759,6 +759,28 @@ func (m *machine) drawPartial(t *rapid.T, pi int) ([]entry, delta) {
 				// feature set replaces the old one is a design choice of the code: not asserted)
 				spec = *clone(*cur)
 				world.Label("entry/re-add")
+				// ... or with the same features offering other functions / operations and other
+				// descriptions: the later announcement counts. (Whether a changed feature SET keeps the
+				// registry entries of vanished features is a design choice of the code: not generated.)
+				if len(spec.Feats) > 0 && rapid.Bool().Draw(t, lbl+".readdChanged") {
+					spec.Desc = rapid.SampledFrom(descs).Draw(t, lbl+".desc")
+					for fi := range spec.Feats {
+						f := &spec.Feats[fi]
+						kind := featKinds[0]
+						for _, k := range featKinds {
+							if k.ft == f.Type {
+								kind = k
+							}
+						}
+						f.Desc = rapid.SampledFrom(descs).Draw(t, fmt.Sprintf("%s.f%d.desc", lbl, fi))
+						f.Funcs = nil
+						nf := rapid.IntRange(0, len(kind.fns)).Draw(t, fmt.Sprintf("%s.f%d.functions", lbl, fi))
+						for q := 0; q < nf; q++ {
+							f.Funcs = append(f.Funcs, funcSpec{kind.fns[q], rapid.SampledFrom(opChoices).Draw(t, fmt.Sprintf("%s.f%d.fn%d.ops", lbl, fi, q))})
+						}
+					}
+					world.Label("entry/re-add-changed-operations")
+				}
 			} else {
 				spec = drawEntity(t, addr, lbl)
 			}
